@@ -772,6 +772,13 @@ class Engine:
 
         flow_update_dict = dict(flow_updates)
 
+        # The deletions come first: a path that this update vacated (its
+        # compartment moved away or divided) may have been filled again
+        # by the same update, and what was added there must survive.
+        if deletions:
+            for deletion in deletions:
+                self._delete_path(deletion)
+
         if topology_updates:
             for path, topology_update in topology_updates:
                 assoc_path(self.topology, path, topology_update)
@@ -793,10 +800,6 @@ class Engine:
                 assoc_path(self.steps, path, step)
                 self._add_step_path(step, path, dependencies)
 
-        if deletions:
-            for deletion in deletions:
-                self._delete_path(deletion)
-
         return view_expire
 
     def _delete_path(
@@ -816,6 +819,10 @@ class Engine:
         for path in list(self.process_paths.keys()):
             if starts_with(path, deletion):
                 del self.process_paths[path]
+                # A process created later at this path starts afresh.
+                progress = self.front.pop(path, None)
+                if progress and progress['update']:
+                    progress['update'][0].discard()
 
         for path in list(self._step_paths):
             if starts_with(path, deletion):
